@@ -118,4 +118,34 @@ def goPackBytesGroup (w : Nat) (g : List Nat) : List Nat := leBytes w (goPackWor
 def goEncodeBytesBitpack (w : Nat) (gs : List (List Nat)) : List Nat :=
   (gs.map (goPackBytesGroup w)).flatten
 
+/-! ## `bitpack.Pack` for int32 (portable `packInt32Default`, bitpack v1.0.3 pack_default.go:5-35) -/
+
+/-- state of `packInt32Default`: the 64-bit `buffer`, `bufferedBits`, and the bytes written so far -/
+structure PackSt where
+  buffer : Nat
+  bits : Nat
+  out : List Nat
+
+/-- MIRROR pack_default.go:19-24: `for bufferedBits >= 32 { PutUint32(dst[byteIndex:], uint32(buffer));
+buffer >>= 32; bufferedBits -= 32; byteIndex += 4 }` (explicit fuel) -/
+def packFlush : Nat → PackSt → PackSt
+  | 0, st => st
+  | f + 1, st =>
+    if st.bits ≥ 32 then
+      packFlush f { buffer := st.buffer / 2 ^ 32, bits := st.bits - 32, out := st.out ++ leBytes 4 (st.buffer % 2 ^ 32) }
+    else st
+
+/-- MIRROR pack_default.go:15-25, one value: `buffer |= uint64(uint32(value)&bitMask) << bufferedBits`
+(the new bits lie above the buffered ones: a sum), `bufferedBits += bitWidth`, then the flush loop
+(it runs at most once for widths ≤ 32; fuel 2). No `uint64` overflow occurs: `bufferedBits < 32`
+on entry, so at most 63 bits are held. -/
+def packStep (w : Nat) (st : PackSt) (v : Nat) : PackSt :=
+  packFlush 2 { buffer := st.buffer + (v % 2 ^ w) * 2 ^ st.bits, bits := st.bits + w, out := st.out }
+
+/-- MIRROR pack_default.go:5-35 `packInt32Default` (with the tail: `(bufferedBits+7)/8` bytes of the
+buffer, least significant first), i.e. `bitpack.Pack` as called by `encodeInt32BitpackDefault`. -/
+def goPackInt32 (w : Nat) (src : List Nat) : List Nat :=
+  let st := src.foldl (packStep w) { buffer := 0, bits := 0, out := [] }
+  if st.bits > 0 then st.out ++ leBytes ((st.bits + 7) / 8) st.buffer else st.out
+
 end PqModel.Rle
